@@ -1096,6 +1096,19 @@ impl<'de, 'e> YamlDeserializer<'de, 'e> {
         }
     }
 
+    /// Consume the next event if it is a null-like scalar that carries no anchor.
+    fn take_unanchored_null(&mut self) -> Result<bool, Error> {
+        let is_null = matches!(
+            self.ev.peek()?,
+            Some(Ev::Scalar { anchor, tag, value, style, .. })
+                if *anchor == 0 && (tag == &SfTag::Null || scalar_is_nullish_for_option(value, style))
+        );
+        if is_null {
+            let _ = self.ev.next()?;
+        }
+        Ok(is_null)
+    }
+
     /// Peek at the next event's anchor id, if any (0 indicates no anchor).
     fn peek_anchor_id(&mut self) -> Result<Option<usize>, Error> {
         match self.ev.peek()? {
@@ -1756,12 +1769,20 @@ impl<'de, 'e> de::Deserializer<'de> for YamlDeserializer<'de, 'e> {
             }
             "__yaml_rc_weak_anchor" => {
                 let anchor = self.peek_anchor_id()?;
+                // A dangling weak is written as `null`: hand it to the visitor as a unit.
+                if anchor.is_none() && self.take_unanchored_null()? {
+                    return visitor.visit_unit();
+                }
                 anchor_store::with_anchor_context(AnchorKind::Rc, anchor, || {
                     visitor.visit_newtype_struct(self)
                 })
             }
             "__yaml_arc_weak_anchor" => {
                 let anchor = self.peek_anchor_id()?;
+                // A dangling weak is written as `null`: hand it to the visitor as a unit.
+                if anchor.is_none() && self.take_unanchored_null()? {
+                    return visitor.visit_unit();
+                }
                 anchor_store::with_anchor_context(AnchorKind::Arc, anchor, || {
                     visitor.visit_newtype_struct(self)
                 })
